@@ -111,7 +111,11 @@ def check_state(C, ents, created):
     def bad(sig, obs, exp):
         out.append(dict(signature=sig, observed=obs, expected=exp))
 
-    finders = {"paths": FindInPaths(c0), "all": FindInAll(), "list": FindInList(st.list_for_paths())}
+    # the list also holds lines that are no Sids of the configuration (a sibling with an unknown value, a header line): the
+    # relations between find / find_one / exists / as_sid are stated for whatever find yields
+    L = st.list_for_paths()
+    L = L + sorted({"/".join(e.split("/")[:-1] + ["zz8"]) for e in L if "/" in e})[:6] + ["# listing", "bla/bla"]
+    finders = {"paths": FindInPaths(c0), "all": FindInAll(), "list": FindInList(L)}
     for s in search_menu(C, ents):
         for fn, f in finders.items():
             try:
